@@ -1,7 +1,7 @@
 #!/usr/bin/env python3
 """Runs every seeded change under /verif/seeded against the quick check of its property
 (and extra checks given as 'also' in meta.json), restoring /repo after each one.
-Writes /verif/seeded/RESULTS.json. usage: tools/mutants_all.py [name-prefix]"""
+Writes /verif/seeded/RESULTS.json. usage: tools/mutants_all.py [name-regex]"""
 import json, os, subprocess, sys, glob, re, time
 pref = sys.argv[1] if len(sys.argv) > 1 else ""
 res = {}
@@ -10,13 +10,13 @@ if os.path.exists(rp):
     res = json.load(open(rp))
 for d in sorted(glob.glob("/verif/seeded/C*-*")):
     name = os.path.basename(d)
-    if not name.startswith(pref):
+    if not re.search(pref, name):
         continue
     meta = json.load(open(d + "/meta.json"))
     ids = [meta["property"]] + meta.get("also", [])
     if subprocess.run("git -C /repo diff --quiet", shell=True).returncode != 0:
         print("repo dirty, abort"); sys.exit(2)
-    rc = subprocess.run(f"git -C /repo apply {d}/patch.diff", shell=True).returncode
+    rc = subprocess.run(f"git -C /repo apply {d}/patch.diff || (git -C /repo apply -3 {d}/patch.diff && git -C /repo reset -q)", shell=True).returncode
     if rc != 0:
         res[name] = {"error": "patch does not apply"}; continue
     out = {}
